@@ -254,6 +254,7 @@ def check(ctx):
     report(ctx, v3, cases3, "ChunkTrace.tla", consts3, "tails")
     ctx.extra["tails"] = {k: v for k, v in info3.items() if k not in ("cases", "lines")}
     ctx.extra["accessor_and_logger_paths"] = {"peeks_buffer_capacity": info1["peeks"], "seek_from_end_calls": info1["seek_end_calls"],
+                                              "bulk_read_then_seek_back_patterns": info1["bulk_read_then_seek_back"],
                                               "iterator_runs_with_logger": info2["iterator_runs_with_logger"] + info3["iterator_runs_with_logger"]}
     if not ctx.violations:
         for k, v in ctx.extra["accessor_and_logger_paths"].items():
